@@ -50,6 +50,7 @@ class Connector : noncopyable,
   static const int kInitRetryDelayMs = 500;
 
   void setState(States s) { state_ = s; }
+  void startCycleInLoop();
   void startInLoop();
   void stopInLoop();
   void connect();
